@@ -44,7 +44,7 @@ def plan(tier):
         "shards": 16,
         "budget_s": 50 if q else 700,
         "timeout_s": 420 if q else 2400,
-        "min_nontrivial": 60 if q else 1250,
+        "min_nontrivial": 60 if q else 800,
         "required_counters": ["oracle_output_compare", "faults_fired", "reference_runs", "cases_soft_or_own",
                               "cases_failstop_all"],
         "rule": "case = (shape, fault set, perturbation seed); single faults enumerated over every (job, phase in "
@@ -158,7 +158,7 @@ def run_case(sh: Shard, case: dict) -> None:
     if not ref_ok:
         return
     res = R.run_sync(prog, faults, os.path.join(sh.scratch, "case"), seed=seed, max_retries=limit,
-                     wall_timeout=sh.pick(60, 300))
+                     wall_timeout=sh.pick(90, 300))
     key = (prog.get("shape"), C.fault_key(faults), seed)
     nfired = C.fired(res)
     sh.case(key, nontrivial=nfired > 0)
